@@ -463,6 +463,61 @@ _orig_load_known = vf.load_known
 vf.load_known = load_known_with_fragment
 
 
+def ring_part(ring):
+    """which translation unit of harness/c03_modular.C (-DC03_PART=n) registers the ring"""
+    r = ring.split("@")[0]
+    if r in INT_RINGS:
+        return 1 if ITY[r.split("_")[0]][0] <= 16 else 2
+    if r in FLT_RINGS + BAL_RINGS + EXT_RINGS:
+        return 3
+    return 4
+
+
+def build_harness_parts():
+    """the four translation units, compiled concurrently (each is cached by the hash of /repo's sources and its flags)"""
+    import threading
+    res = {}
+
+    def work(k):
+        res[k] = vf.build_harness("c03_modular.C", extra_flags=["-DC03_PART=%d" % k], name="c03_modular_p%d" % k)
+    ths = [threading.Thread(target=work, args=(k,)) for k in (1, 2, 3, 4)]
+    for t in ths:
+        t.start()
+    for t in ths:
+        t.join()
+    logs = "\n".join(res[k][1] for k in res if res[k][0] is None)
+    if any(res[k][0] is None for k in res):
+        return None, logs
+    return {k: res[k][0] for k in res}, ""
+
+
+def run_impl(parts, cases_lines, rings, timeout=1500):
+    """route every line to the binary that registers its ring, run the four binaries concurrently, restore the order"""
+    import threading
+    idx = {1: [], 2: [], 3: [], 4: []}
+    for i, r in enumerate(rings):
+        idx[ring_part(r)].append(i)
+    out = [None] * len(cases_lines)
+    status = {}
+
+    def work(k):
+        if not idx[k]:
+            status[k] = (0, "")
+            return
+        rc, o, e = vf.run_lines(parts[k], "".join(cases_lines[i] for i in idx[k]), timeout=timeout)
+        status[k] = (rc if len(o) == len(idx[k]) else (rc or 99), e)
+        if len(o) == len(idx[k]):
+            for i, l in zip(idx[k], o):
+                out[i] = l
+    ths = [threading.Thread(target=work, args=(k,)) for k in idx]
+    for t in ths:
+        t.start()
+    for t in ths:
+        t.join()
+    rc = max(status[k][0] for k in status)
+    return rc, ([] if rc else out), "".join(status[k][1] for k in status)
+
+
 def run_parallel(binary, lines, timeout=1500, nproc=12):
     """run a line-protocol driver on `lines`, split into contiguous chunks over nproc processes (order kept)"""
     import subprocess
@@ -508,12 +563,12 @@ def main(tier, replay=None):
         "harness/c03_modular.C, checks/C03.py (case generator, python big-integer oracle)",
         "g++ / x86-64 (FMA path of ModularExtended) for the implementation side",
     ]
-    himpl, l2 = vf.build_harness("c03_modular.C")
+    himpl, l2 = build_harness_parts()
     if himpl is None:
         chk.broke("implementation harness does not compile against /repo", l2)
         return chk.finish()
     # 0. the advertised bounds, from the implementation
-    rc, out, err = vf.run_lines(himpl, "".join("%s 0 info\n" % r for r in ALL_RINGS))
+    rc, out, err = run_impl(himpl, ["%s 0 info\n" % r for r in ALL_RINGS], ALL_RINGS)
     if rc != 0 or len(out) != len(ALL_RINGS):
         chk.broke("implementation harness failed on info", err)
         return chk.finish()
@@ -581,8 +636,8 @@ def main(tier, replay=None):
                 aa = rng.choice([0, 1, bb - 1, bb // 2, rng.range(0, bb - 1)])
                 cases.append((ring, 2, "gcdext", [aa, bb]))
     chk.cov["phase_seconds"]["generate"] = round(_t.time() - _t0, 1); _t0 = _t.time()
-    impl_in = "".join("%s %d %s %s\n" % (r, p, op, " ".join(str(x) for x in a)) for r, p, op, a in cases)
-    rc, iout, ierr = vf.run_lines(himpl, impl_in, timeout=1500)
+    impl_in = ["%s %d %s %s\n" % (r, p, op, " ".join(str(x) for x in a)) for r, p, op, a in cases]
+    rc, iout, ierr = run_impl(himpl, impl_in, [r for r, p, op, a in cases], timeout=1500)
     if rc != 0 or len(iout) != len(cases):
         chk.broke("implementation harness failed (rc=%s, %d/%d lines)" % (rc, len(iout), len(cases)), ierr[-2000:])
         return chk.finish()
